@@ -2,6 +2,8 @@ import RjModel.Lemmas.SyncLemmas
 import RjModel.Lemmas.CrashLemmas
 import RjModel.Lemmas.WalkOrderLemmas
 import RjModel.Model.FileRecv
+import RjModel.Generated.ConfirmShape
+import RjModel.Model.ConfirmShape
 /-! # C08 — an interrupted or failed sync can always be repaired by running it again
 (the doer never leaves a file that carries the source's modification time but different bytes) -/
 namespace Rj.C08
@@ -306,5 +308,10 @@ theorem C08_rerun_after_any_crash_own_listing {fs0 : FS} (hwf : fs0.Wf) {r : FPa
     refine ⟨fs1', fsk', hd, hrun, own fsk' (Wf_runCpys done fs1' fsk' (Wf_runDels _ fs0 fs1' hwf hd) hrun) hrep ⟨hroot, ?_, hclosed⟩⟩
     intro k hk
     rw [hout _ (not_prefix_of_shorter r k hk)]; exact hw.rootAnc k hk
+
+/-- **`copy_file` (the relay of a file's parts: first part creates, the last one carries the time, the size check at the end) still has the shape the model was written against** - a pin like `C03_confirm_actions_shape`: the normalised text extracted on every run
+equals the copy kept in `Model/ConfirmShape.lean`. -/
+theorem C08_copy_file_shape : Generated.copyFileShape = copyFileShapeRef := by rfl
+
 
 end Rj.C08
